@@ -338,6 +338,8 @@ func c04Run(run *ev.Run) {
 		depth = 6
 	}
 	var states, trans, traces int64
+	defer debugLogTail(run, 4, func(s world.Spec) seqx.Model { return c04Opts("quick", s).model(c04Monitor(run, s)) },
+		world.Spec{Store: "memory", Forward: true}, world.Spec{Store: "redis", Forward: true})
 	for _, store := range []string{"memory", "redis"} {
 		spec := world.Spec{Store: store, Forward: true}
 		m := c04Opts(run.Tier, spec).model(c04Monitor(run, spec))
